@@ -7,6 +7,7 @@ import (
 	"math/rand/v2"
 	"testing"
 
+	"github.com/ava-labs/avalanchego/ids"
 	"github.com/ava-labs/avalanchego/x/merkledb"
 
 	"github.com/ava-labs/hypersdk/auth"
@@ -194,6 +195,7 @@ func runMorphCase(ctx context.Context, t *testing.T, r *kit.Run, rng *rand.Rand,
 	parent := fx.Genesis
 	var parentView merkledb.View = fx.DB
 	ts := int64(1_700_000_000_000)
+	seenTx := map[ids.ID]bool{}
 	for bi := 0; bi < nBlocks; bi++ {
 		ts += int64(1000 * (1 + rng.IntN(5)))
 		ntx := 1 + rng.IntN(maxTxs)
@@ -203,11 +205,16 @@ func runMorphCase(ctx context.Context, t *testing.T, r *kit.Run, rng *rand.Rand,
 		}
 		var txs []*chain.Transaction
 		gm := model.clone() // generation-time view of balances (approximate after failures)
+		gm.start = model.clone().bal
 		for i := 0; i < ntx; i++ {
 			tx, err := mw.genTransferTx(rng, gm, ts, 16, prices)
 			if err != nil {
 				t.Fatal(err)
 			}
+			if seenTx[tx.GetID()] {
+				continue // transfers carry no nonce: an identical draw would be a replay (C09's subject)
+			}
+			seenTx[tx.GetID()] = true
 			txs = append(txs, tx)
 			_, _ = gm.applyTx(tx, prices)
 		}
